@@ -176,6 +176,8 @@ class Harness(cm.BaseA):
                             raise KeyError("abort")
                     except KeyError:
                         pass
+                    else:
+                        exc = AssertionError("the exception raised inside the with block did not leave it")
             except Exception as e:
                 exc = e
         finally:
